@@ -2684,11 +2684,11 @@ static WUR iwrc _lx_del_sblk_lw(struct iwlctx *lx, struct sblk *sblk, uint8_t id
       } else if (cur->cn->n[0] == sblk_blkn) {
         memcpy(cur->cn, lx->plower[0], sizeof(*cur->cn));
         cur->cn->kvblk = 0;
-        cur->cn->flags &= SBLK_PERSISTENT_FLAGS;
+        cur->cn->flags &= (SBLK_PERSISTENT_FLAGS | SBLK_DB);
       } else if (cur->cn->p0 == sblk_blkn) {
         memcpy(cur->cn, nb, sizeof(*nb));
         cur->cn->kvblk = 0;
-        cur->cn->flags &= SBLK_PERSISTENT_FLAGS;
+        cur->cn->flags &= (SBLK_PERSISTENT_FLAGS | SBLK_DB);
       }
     }
   }
